@@ -102,6 +102,9 @@ pub struct Cfg {
     /// listing page): 0, 11 (beyond the default page of 10) or 31 (beyond the maximum page of 30)
     #[serde(default)]
     pub filler_pairs: u32,
+    /// weight of `Op::SetDistAsset` (the owner switches the distributor's distribution asset mid-history)
+    #[serde(default)]
+    pub w_set_dist: u32,
     /// the same for the vault factory
     #[serde(default)]
     pub filler_vaults: u32,
@@ -126,6 +129,8 @@ pub enum Op {
     SetGrace { value: u64, by_owner: bool },
     /// fee distributor UpdateConfig { epoch_config: { duration, genesis_epoch as configured } }
     SetDuration { duration_ns: u64, by_owner: bool },
+    /// UpdateConfig { distribution_asset } on the distributor: asset 0 uwhale, 1 uusdc, 2 TKA
+    SetDistAsset { asset: usize, by_owner: bool },
     SetTake { rate: Option<String>, dao: Option<usize>, active: Option<bool>, by_owner: bool },
     /// ForwardFees sent to the collector by the actor (not the distributor)
     ForwardDirect { as_owner: bool },
@@ -183,6 +188,10 @@ pub struct Model {
     pub created_seq: Vec<u64>,
     /// an owner's SetDuration changed the configured duration while epochs already existed
     pub dur_changed_mid: bool,
+    /// index of the distributor's configured distribution asset (0 = uwhale at the start)
+    pub dist_asset: usize,
+    /// the owner switched the distribution asset at least once
+    pub dist_switched: bool,
     /// ... and the last such change was an increase
     pub dur_raised_mid: bool,
     /// the user has bonded at some point
@@ -517,7 +526,8 @@ impl Scenario for Hub {
             n
         };
         let faults = rng.chance(1, 3);
-        let liquidity = *rng.pick(&[1_000_000_000u128, 1_000_000_000_000, 1_000_000_000_000, 50_000_000]);
+        // the last entry: pools of 18-decimals tokens (fees and collector balances beyond 2^68)
+        let liquidity = *rng.pick(&[1_000_000_000u128, 1_000_000_000_000, 1_000_000_000_000, 50_000_000, 1_000_000_000_000, 1_000_000_000, 2_000_000_000_000_000_000_000_000]);
         let pair_fees = [gen_pair_fees(rng), gen_pair_fees(rng), gen_pair_fees(rng)];
         let vault_native_is_whale = rng.chance(1, 3);
         let vault_fees = [
@@ -562,6 +572,7 @@ impl Scenario for Hub {
             2 => 31,
             _ => 0,
         };
+        let w_set_dist = if (prop == "C09" || prop == "C10") && rng.chance(1, 4) { 1 } else { 0 };
         Cfg {
             n_users,
             max_steps,
@@ -585,6 +596,7 @@ impl Scenario for Hub {
             script_epochs,
             filler_pairs,
             filler_vaults,
+            w_set_dist,
         }
     }
 
@@ -594,12 +606,14 @@ impl Scenario for Hub {
 
     fn build(cfg: &Cfg, _ctx: &mut Ctx) -> Self {
         let n = cfg.n_users;
+        // pool assets: a thousand times the pool liquidity at least
+        let asset_funds = USER_FUNDS.max(cfg.liquidity.saturating_mul(1_000_000));
         let rich = |extra: u128| -> Vec<Coin> {
             let mut v = vec![
                 coin(USER_FUNDS + extra, BOND_DENOMS[0]),
                 coin(USER_FUNDS + extra, BOND_DENOMS[1]),
-                coin(USER_FUNDS + extra, USDC),
-                coin(USER_FUNDS + extra, WHALE),
+                coin(asset_funds + extra, USDC),
+                coin(asset_funds + extra, WHALE),
             ];
             v.sort_by(|a, b| a.denom.cmp(&b.denom));
             v
@@ -731,16 +745,16 @@ impl Scenario for Hub {
             );
         }
         let borrower = must_instantiate(&mut app, borrower_code_id, OWNER, &cosmwasm_std::Empty {}, "borrower", None);
-        let mut tb: Vec<(&str, u128)> = USERS.iter().take(n).map(|u| (*u, USER_FUNDS)).collect();
-        tb.push((OWNER, USER_FUNDS));
-        tb.push((&borrower, USER_FUNDS));
+        let mut tb: Vec<(&str, u128)> = USERS.iter().take(n).map(|u| (*u, asset_funds)).collect();
+        tb.push((OWNER, asset_funds));
+        tb.push((&borrower, asset_funds));
         let tka = new_cw20(&mut app, token_code, "TKA", 6, OWNER, &tb);
         let assets = [native(WHALE), native(USDC), token(&tka)];
         // the borrower pays the loan fees from its own pocket
         let r = tx(
             &mut app,
             OWNER,
-            vec![bank_send(&borrower, USER_FUNDS / 2, WHALE), bank_send(&borrower, USER_FUNDS / 2, USDC)],
+            vec![bank_send(&borrower, asset_funds / 2, WHALE), bank_send(&borrower, asset_funds / 2, USDC)],
             Fault::None,
         );
         assert!(r.outcome.is_ok(), "harness: fund borrower: {}", r.outcome.err_text());
